@@ -66,6 +66,8 @@ var zzTables = [][]zzOp{
 	// 21: one removal prunes two levels below an indexed parent (branch registered first / last)
 	{zzH("/c/{id}", "GET"), zzH("/a", "GET"), zzH("/b", "GET"), zzH("/d", "GET"), zzH("/e", "GET"), zzRm("/c/{id}")},
 	{zzH("/a", "GET"), zzH("/b", "GET"), zzH("/d", "GET"), zzH("/e", "GET"), zzH("/c/{id}", "GET"), zzH("/{x}", "POST"), zzRm("/c/{id}")},
+	// 23: removals that name methods a route does not (or cannot) hold: TRACE, HEAD, OPTIONS, next to real ones
+	{zzH("/a", "GET", "POST"), zzH("/b/{x}", "GET", "DELETE"), zzRm("/a", "TRACE"), zzRm("/b/{x}", "DELETE", "TRACE", "HEAD"), zzRm("/a", "OPTIONS", "POST")},
 }
 
 var zzMethods = []string{"GET", "HEAD", "POST", "OPTIONS", "DELETE", "PUT", "TRACE", "", "BOGUS"}
